@@ -20,8 +20,10 @@ import (
 	paramproposal "github.com/cosmos/cosmos-sdk/x/params/types/proposal"
 	stakingtypes "github.com/cosmos/cosmos-sdk/x/staking/types"
 	"github.com/ethereum/go-ethereum/common"
+	"github.com/ethereum/go-ethereum/crypto"
 
 	e "haqqsim/engine"
+	"haqqsim/evmprog"
 
 	"github.com/haqq-network/haqq/contracts"
 	coinomicstypes "github.com/haqq-network/haqq/x/coinomics/types"
@@ -38,21 +40,76 @@ type Sched struct {
 	Start int64       `json:"start"` // unix seconds
 	Lock  [][2]string `json:"lock"`  // [length seconds, amount]
 	Vest  [][2]string `json:"vest"`
+	LockU []string    `json:"lock_u,omitempty"` // second denomination (utest) amount of lock-up period i
+	VestU []string    `json:"vest_u,omitempty"`
 	Merge bool        `json:"merge,omitempty"`
 	Stake bool        `json:"stake,omitempty"`
 	Val   int         `json:"val,omitempty"`
 }
 
-func (s Sched) periods(p [][2]string) sdkvesting.Periods {
+func (s Sched) periods(p [][2]string, second []string) sdkvesting.Periods {
 	var out sdkvesting.Periods
-	for _, x := range p {
+	for i, x := range p {
 		l := e.BigS(x[0]).Int64()
-		out = append(out, sdkvesting.Period{Length: l, Amount: e.Native(e.BigS(x[1]))})
+		cs := sdk.NewCoins()
+		if a := e.BigS(x[1]); a.Sign() > 0 {
+			cs = cs.Add(e.C(e.Denom, a))
+		}
+		if i < len(second) {
+			if a := e.BigS(second[i]); a.Sign() > 0 {
+				cs = cs.Add(e.C("utest", a))
+			}
+		}
+		out = append(out, sdkvesting.Period{Length: l, Amount: cs})
 	}
 	return out
 }
-func (s Sched) LockP() sdkvesting.Periods { return s.periods(s.Lock) }
-func (s Sched) VestP() sdkvesting.Periods { return s.periods(s.Vest) }
+func (s Sched) LockP() sdkvesting.Periods { return s.periods(s.Lock, s.LockU) }
+func (s Sched) VestP() sdkvesting.Periods { return s.periods(s.Vest, s.VestU) }
+
+// Total2 is the grant's total in the second denomination.
+func (s Sched) Total2() *big.Int {
+	t := new(big.Int)
+	src := s.LockU
+	if len(s.Lock) == 0 {
+		src = s.VestU
+	}
+	for _, x := range src {
+		t.Add(t, e.BigS(x))
+	}
+	return t
+}
+
+// AddSecondDenom gives the schedule amounts in a second denomination, split
+// independently over the lock-up and the vesting periods (same total).
+func (s *Sched) AddSecondDenom(r *e.RNG, total *big.Int) {
+	split := func(n int) []string {
+		if n == 0 {
+			return nil
+		}
+		if total.Cmp(big.NewInt(int64(n))) < 0 {
+			out := make([]string, n)
+			for i := range out {
+				out[i] = "0"
+			}
+			out[n-1] = total.String()
+			return out
+		}
+		var out []string
+		for _, a := range splitAmount(r, total, n) {
+			out = append(out, a.String())
+		}
+		// some periods carry nothing in the second denomination
+		if n > 1 && r.Chance(0.5) {
+			i := r.Intn(n - 1)
+			x := new(big.Int).Add(e.BigS(out[i]), e.BigS(out[n-1]))
+			out[i], out[n-1] = "0", x.String()
+		}
+		return out
+	}
+	s.LockU = split(len(s.Lock))
+	s.VestU = split(len(s.Vest))
+}
 func (s Sched) Total() *big.Int {
 	t := new(big.Int)
 	src := s.Lock
@@ -750,6 +807,16 @@ func evmGovMsgs(w *e.World, kind, arg int64) []sdk.Msg {
 		p.ChainConfig.MergeNetsplitBlock = &blk
 		p.ChainConfig.ShanghaiBlock = &blk
 		p.ChainConfig.CancunBlock = &blk
+	case 4:
+		pairs := w.App().Erc20Keeper.GetTokenPairs(ctx)
+		if len(pairs) == 0 {
+			return nil
+		}
+		c, err := legacyContent(erc20types.NewToggleTokenConversionProposal("t", "d", pairs[int(arg)%len(pairs)].Denom), auth)
+		if err != nil {
+			return nil
+		}
+		return []sdk.Msg{c}
 	default:
 		if arg%2 == 0 {
 			p.EnableCreate = !p.EnableCreate
@@ -771,7 +838,7 @@ func init() {
 	// transactions whose outcome depends on EVM parameters (active precompiles, fork rules)
 	defOp(&OpDef{Name: "eth_probe",
 		Gen: func(w *e.World, r *e.RNG) e.Step {
-			return e.Step{K: "tx", Op: "eth_probe", A: r.Intn(nAcc(w)), B: w.AnyAcct(r), N: []int64{int64(r.Intn(5))}}
+			return e.Step{K: "tx", Op: "eth_probe", A: r.Intn(nAcc(w)), B: w.AnyAcct(r), N: []int64{int64(r.Intn(7))}}
 		},
 		Eth: func(w *e.World, st *e.Step) (*e.Account, e.EthArgs, bool) {
 			a, b := w.Acct(st.A), w.Acct(st.B)
@@ -789,6 +856,12 @@ func init() {
 				args.To, args.Data = &to, make([]byte, 160)
 			case 2: // creation code that executes BASEFEE (London)
 				args.Data = []byte{0x48, 0x50, 0x00}
+			case 5: // constructor stores a value and returns no code: an account with storage but no code
+				args.Data = []byte{0x60, 0x2a, 0x60, 0x01, 0x55, 0x00}
+				noteContract(w, a)
+			case 6: // ordinary small contract with storage (Storer deployed and initialised by its constructor)
+				args.Data = append([]byte{0x60, 0x07, 0x60, 0x02, 0x55}, evmprog.Deployer(evmprog.Storer())...)
+				noteContract(w, a)
 			case 3: // staking precompile view
 				to := common.HexToAddress("0x0000000000000000000000000000000000000800")
 				data, err := loadABI("staking").Pack("delegation", a.Eth, valString(w, 0))
@@ -803,6 +876,16 @@ func init() {
 			}
 			return a, args, true
 		}})
+}
+
+// noteContract remembers the address a creation tx of account a will produce
+// (profiles that compare EVM state across export/import or restarts query it).
+func noteContract(w *e.World, a *e.Account) {
+	addr := crypto.CreateAddress(a.Eth, w.EthNonce(a.Eth))
+	l, _ := w.Ext["contracts"].([]common.Address)
+	if len(l) < 12 {
+		w.Ext["contracts"] = append(l, addr)
+	}
 }
 
 func legacyContent(c govv1beta1.Content, authority string) (sdk.Msg, error) {
